@@ -448,3 +448,163 @@ Proof.
   - cbn [xop_redo]. eexists. split; [reflexivity|]. eapply xeqv_trans; [apply xeqv_mask_resize|].
     eapply xeqv_trans; [apply xeqv_set_bsize; exact Ht|apply xeqv_sym; exact Hb].
 Qed.
+
+(* ================================================================================================================
+   stage 2: layer-list surgery (Paste, MergeLayerDown) *)
+Lemma xeqv_layers a b : xeqv a b -> Forall2 leqv (xlayers a) (xlayers b).
+Proof. intros [(_ & _ & H) _]. exact H. Qed.
+Lemma xeqv_length a b : xeqv a b -> length (xlayers a) = length (xlayers b).
+Proof. intro H. eapply Forall2_len. apply xeqv_layers. exact H. Qed.
+Lemma xeqv_with_curl s n : xeqv (with_xb s (with_curl (xb s) n)) s.
+Proof. split; [exact (eqv_with_curl (xb s) n)|exact (rest_eq_refl s)]. Qed.
+Lemma with_xlayers_twice a l1 l2 : with_xlayers (with_xlayers a l1) l2 = with_xlayers a l2.
+Proof. reflexivity. Qed.
+Lemma xlayers_with_xlayers a l : xlayers (with_xlayers a l) = l.
+Proof. reflexivity. Qed.
+Lemma xeqv_xlayers_id a l : Forall2 leqv l (xlayers a) -> xeqv (with_xlayers a l) a.
+Proof.
+  intro H. split; [|exact (rest_eq_refl a)]. cbn. repeat split; try reflexivity. exact H.
+Qed.
+
+(* Paste: insert / remove at current_layer + 1, the layer travels between payload and document (no clamp of the current layer) *)
+Definition U_paste (o : xuop) (a b : xstate) : Prop :=
+  exists c L pay, o = XPaste c pay /\ (S c <= length (xlayers a))%nat /\ xeqv b (with_xlayers a (insert_at (S c) L (xlayers a))).
+Definition R_paste (o : xuop) (a b : xstate) : Prop :=
+  exists c L, o = XPaste c (Some L) /\ (S c <= length (xlayers a))%nat /\ xeqv b (with_xlayers a (insert_at (S c) L (xlayers a))).
+
+Lemma paste_closed : lclosed xop_undo xop_redo xeqv U_paste R_paste.
+Proof.
+  split.
+  - intros o a b (c & L & pay & -> & Hi & Hb) t Ht.
+    pose proof (xeqv_trans _ _ _ Ht Hb) as Htb.
+    assert (Hn : nth_error (insert_at (S c) L (xlayers a)) (S c) = Some L).
+    { rewrite nth_error_insert_at by exact Hi. rewrite Nat.ltb_irrefl, Nat.eqb_refl. reflexivity. }
+    destruct (Forall2_nth_error_r leqv _ _ _ _ (xeqv_layers _ _ Htb) Hn) as (Lt & Hnt & HLt).
+    cbn [xop_undo]. rewrite Hnt. eexists _, _. split; [reflexivity|]. split.
+    + eapply xeqv_trans; [apply (xeqv_with_xlayers _ _ _ (remove_at (S c) (insert_at (S c) L (xlayers a))) Htb)|].
+      { apply Forall2_remove_at. exact (xeqv_layers _ _ Htb). }
+      rewrite with_xlayers_twice, remove_at_insert_at by exact Hi. apply xeqv_xlayers_id. apply Forall2_leqv_refl.
+    + exists c, Lt. split; [reflexivity|]. split; [exact Hi|]. eapply xeqv_trans; [exact Hb|].
+      apply xeqv_with_xlayers; [apply xeqv_refl|]. apply Forall2_insert_at; [apply Forall2_leqv_refl|apply leqv_sym; exact HLt].
+  - intros o a b (c & L & -> & Hi & Hb) t Ht.
+    cbn [xop_redo]. rewrite <- (xeqv_length _ _ Ht) in Hi.
+    replace (S c <=? length (xlayers t))%nat with true by (symmetry; apply Nat.leb_le; exact Hi).
+    eexists _, _. split; [reflexivity|]. split.
+    + eapply xeqv_trans; [|apply xeqv_sym; exact Hb]. apply xeqv_with_xlayers; [exact Ht|].
+      apply Forall2_insert_at; [exact (xeqv_layers _ _ Ht)|apply leqv_refl].
+    + exists c, L, None. split; [reflexivity|]. rewrite (xeqv_length _ _ Ht) in Hi. split; [exact Hi|exact Hb].
+Qed.
+
+(* MergeLayerDown: two adjacent layers are replaced by one; the two originals / the merged layer travel between payload and document *)
+Definition merged_list (j : nat) (M : layer) (l : list layer) : list layer := firstn j l ++ M :: skipn (S (S j)) l.
+
+Lemma Forall2_merged j M1 M2 l1 l2 : Forall2 leqv l1 l2 -> leqv M1 M2 -> Forall2 leqv (merged_list j M1 l1) (merged_list j M2 l2).
+Proof.
+  intros H HM. unfold merged_list. apply Forall2_app; [apply Forall2_firstn; exact H|]. constructor; [exact HM|apply Forall2_skipn; exact H].
+Qed.
+
+Lemma split_two {A} j (l : list A) : (S j < length l)%nat ->
+  exists x y, firstn 2 (skipn j l) = [x; y] /\ l = firstn j l ++ x :: y :: skipn (S (S j)) l.
+Proof.
+  revert l. induction j as [|j IH]; intros l H.
+  - destruct l as [|x [|y l]]; cbn in H; try lia. exists x, y. split; reflexivity.
+  - destruct l as [|z l]; cbn in H; [lia|]. destruct (IH l) as (x & y & E1 & E2); [lia|]. exists x, y. cbn [skipn firstn app].
+    split; [exact E1|]. f_equal. exact E2.
+Qed.
+
+Lemma firstn_app_exact {A} (l1 l2 : list A) : firstn (length l1) (l1 ++ l2) = l1.
+Proof. rewrite firstn_app, Nat.sub_diag, firstn_all, firstn_O, app_nil_r. reflexivity. Qed.
+Lemma skipn_app_exact {A} (l1 l2 : list A) : skipn (length l1) (l1 ++ l2) = l2.
+Proof. rewrite skipn_app, Nat.sub_diag, skipn_all, skipn_O. reflexivity. Qed.
+
+(* undoing the merge on a list of the merged shape gives back the original shape *)
+Lemma unmerge_list j (pre post : list layer) (L1 L2 M : layer) : length pre = j ->
+  let lt := pre ++ M :: post in
+  nth_error (firstn j lt ++ [L1; L2] ++ skipn j lt) (S (S j)) = Some M /\
+  remove_at (S (S j)) (firstn j lt ++ [L1; L2] ++ skipn j lt) = pre ++ L1 :: L2 :: post.
+Proof.
+  intros Hj lt. subst lt j. rewrite firstn_app_exact, skipn_app_exact. split.
+  - rewrite nth_error_app2 by lia. replace (S (S (length pre)) - length pre)%nat with 2%nat by lia. reflexivity.
+  - unfold remove_at. rewrite firstn_app. replace (S (S (length pre)) - length pre)%nat with 2%nat by lia.
+    rewrite firstn_all2 by lia. cbn [firstn app].
+    replace (S (S (S (length pre)))) with (length pre + 3)%nat by lia. rewrite skipn_app.
+    rewrite skipn_all2 by lia. replace (length pre + 3 - length pre)%nat with 3%nat by lia. cbn [skipn app].
+    rewrite <- app_assoc. reflexivity.
+Qed.
+
+Lemma Forall2_cons_inv_r {A B} (R : A -> B -> Prop) l b l' : Forall2 R l (b :: l') -> exists a l0, l = a :: l0 /\ R a b /\ Forall2 R l0 l'.
+Proof. intro H. inversion H; subst. eauto. Qed.
+
+Lemma xeqv_curl_layers t l n : xeqv (with_xb t (with_curl (with_layers (xb t) l) n)) (with_xlayers t l).
+Proof. split; [exact (eqv_with_curl (with_layers (xb t) l) n)|exact (rest_eq_refl t)]. Qed.
+
+Definition U_merge (o : xuop) (a b : xstate) : Prop :=
+  exists j pay L1 L2 M, o = XMergeDown (S j) pay (Some [L1; L2]) /\ (S j < length (xlayers a))%nat /\
+    Forall2 leqv (firstn j (xlayers a) ++ L1 :: L2 :: skipn (S (S j)) (xlayers a)) (xlayers a) /\
+    xeqv b (with_xlayers a (merged_list j M (xlayers a))).
+Definition R_merge (o : xuop) (a b : xstate) : Prop :=
+  exists j pay M, o = XMergeDown (S j) (Some M) pay /\ (S j < length (xlayers a))%nat /\
+    xeqv b (with_xlayers a (merged_list j M (xlayers a))).
+
+Lemma merge_closed : lclosed xop_undo xop_redo xeqv U_merge R_merge.
+Proof.
+  split.
+  - intros o a b (j & pay & L1 & L2 & M & -> & Hlen & Horig & Hb) t Ht.
+    pose proof (xeqv_trans _ _ _ Ht Hb) as Htb. pose proof (xeqv_layers _ _ Htb) as HF. rewrite xlayers_with_xlayers in HF.
+    unfold merged_list in HF. apply Forall2_app_inv_r in HF. destruct HF as (pre & rest & Hpre & Hrest & Elt).
+    apply Forall2_cons_inv_r in Hrest. destruct Hrest as (Mt & post & -> & HM & Hpost).
+    assert (Hj : length pre = j).
+    { rewrite (Forall2_len _ _ _ Hpre), firstn_length. lia. }
+    destruct (unmerge_list j pre post L1 L2 Mt Hj) as [Hnth Hrem]. cbv zeta in Hnth, Hrem.
+    cbn [xop_undo]. rewrite Elt.
+    replace (j <=? length (pre ++ Mt :: post))%nat with true by (symmetry; apply Nat.leb_le; rewrite app_length; lia).
+    cbn [bind]. rewrite Hnth, Hrem. eexists _, _. split; [reflexivity|]. split.
+    + eapply xeqv_trans; [apply xeqv_curl_layers|].
+      eapply xeqv_trans; [apply (xeqv_with_xlayers _ _ _ (xlayers a) Htb)|].
+      { eapply Forall2_leqv_trans; [|exact Horig]. apply Forall2_app; [exact Hpre|]. constructor; [apply leqv_refl|]. constructor; [apply leqv_refl|exact Hpost]. }
+      rewrite with_xlayers_twice. apply xeqv_xlayers_id. apply Forall2_leqv_refl.
+    + exists j, None, Mt. split; [reflexivity|]. split; [exact Hlen|]. eapply xeqv_trans; [exact Hb|].
+      apply xeqv_with_xlayers; [apply xeqv_refl|]. apply Forall2_merged; [apply Forall2_leqv_refl|apply leqv_sym; exact HM].
+  - intros o a b (j & pay & M & -> & Hlen & Hb) t Ht.
+    pose proof (xeqv_layers _ _ Ht) as HF. pose proof (xeqv_length _ _ Ht) as HL.
+    cbn [xop_redo]. replace (S j <? length (xlayers t))%nat with true by (symmetry; apply Nat.ltb_lt; lia).
+    eexists _, _. split; [reflexivity|]. split.
+    + eapply xeqv_trans; [apply xeqv_curl_layers|]. fold (merged_list j M (xlayers t)).
+      eapply xeqv_trans; [|apply xeqv_sym; exact Hb]. apply xeqv_with_xlayers; [exact Ht|]. apply Forall2_merged; [exact HF|apply leqv_refl].
+    + destruct (split_two j (xlayers t)) as (x & y & E1 & E2); [lia|]. rewrite E1.
+      exists j, None, x, y, M. split; [reflexivity|]. split; [exact Hlen|]. split; [|exact Hb].
+      assert (H1 : Forall2 leqv (firstn j (xlayers a) ++ x :: y :: skipn (S (S j)) (xlayers a))
+                                (firstn j (xlayers t) ++ x :: y :: skipn (S (S j)) (xlayers t))).
+      { apply Forall2_app; [apply Forall2_leqv_sym, Forall2_firstn; exact HF|].
+        constructor; [apply leqv_refl|]. constructor; [apply leqv_refl|]. apply Forall2_leqv_sym, Forall2_skipn. exact HF. }
+      rewrite <- E2 in H1. eapply Forall2_leqv_trans; [exact H1|exact HF].
+Qed.
+
+(* ================================================================================================================
+   stage 3: Crop (buffer size + the whole layer list, swapped with the payload) *)
+Definition U_crop (o : xuop) (a b : xstate) : Prop :=
+  exists nw nh ls lb, o = XCrop (bw (xb a)) (bh (xb a)) nw nh ls /\ Forall2 leqv ls (xlayers a) /\ sauce_in_sync a /\
+    xeqv b (with_xlayers (x_set_bsize a nw nh) lb).
+Definition R_crop (o : xuop) (a b : xstate) : Prop :=
+  exists nw nh ls, o = XCrop (bw (xb a)) (bh (xb a)) nw nh ls /\ sauce_in_sync a /\ xeqv b (with_xlayers (x_set_bsize a nw nh) ls).
+
+Lemma set_bsize_xlayers a w h l : x_set_bsize (with_xlayers a l) w h = with_xlayers (x_set_bsize a w h) l.
+Proof. reflexivity. Qed.
+
+Lemma crop_closed : lclosed xop_undo xop_redo xeqv U_crop R_crop.
+Proof.
+  split.
+  - intros o a b (nw & nh & ls & lb & -> & Hls & Hs & Hb) t Ht.
+    pose proof (xeqv_trans _ _ _ Ht Hb) as Htb.
+    cbn [xop_undo]. eexists _, _. split; [reflexivity|]. split.
+    + eapply xeqv_trans.
+      { apply xeqv_with_xlayers; [|exact Hls]. eapply xeqv_trans; [apply xeqv_mask_resize|apply xeqv_set_bsize; exact Htb]. }
+      rewrite set_bsize_xlayers, with_xlayers_twice, set_bsize_back by exact Hs. apply xeqv_xlayers_id. apply Forall2_leqv_refl.
+    + exists nw, nh, (xlayers t). split; [reflexivity|]. split; [exact Hs|]. eapply xeqv_trans; [exact Hb|].
+      apply xeqv_with_xlayers; [apply xeqv_refl|]. apply Forall2_leqv_sym. exact (xeqv_layers _ _ Htb).
+  - intros o a b (nw & nh & ls & -> & Hs & Hb) t Ht.
+    cbn [xop_redo]. eexists _, _. split; [reflexivity|]. split.
+    + eapply xeqv_trans; [|apply xeqv_sym; exact Hb]. apply xeqv_with_xlayers; [|apply Forall2_leqv_refl].
+      eapply xeqv_trans; [apply xeqv_mask_resize|apply xeqv_set_bsize; exact Ht].
+    + exists nw, nh, (xlayers t), ls. split; [reflexivity|]. split; [exact (xeqv_layers _ _ Ht)|]. split; [exact Hs|exact Hb].
+Qed.
